@@ -11,11 +11,16 @@ INFO = dict(
     "payloads carry a 3-element leaf whose rows must stay together) -> 2 recorded async episodes of different lengths "
     "(simulated clock, all record settings on) -> ExperimentRecord.to_graph() -> Graph(...) for {MCS, GENERATIONAL, TOPOLOGICAL} x {prune, no prune} -> init with the same rng/params/state -> "
     "init_record + rollout; every executed compiled step is compared with the async step of the same node and sequence number (eps, seq, times as float32, rng, state, windows: seq/ts/payload, output). "
+    "For half of the random graphs the abstract executor of the Lean model (Compiled/Exec.lean: per generation all cells read slot seq % size of the payload buffers as they are at the start of the generation and "
+    "the node's carried state, compute, then write) is run by the driver on the real Graph.timings with the probe step function, and every output / next state is compared with the real compiled run (sched.exec). "
     "Non-trivial: the graph has >=1 blocking and >=1 skipped connection, a window > 1 and mixed rates",
     trusted=[
         "Lean machine level (every schedule): every window entry of a recorded async step is a default entry or the sender's recorded output of that sequence number (Async/Payload.lean)",
         "Lean: dataflow evaluation is independent of the order among valid schedules; async windows = last-w-consumed (Props/C01.lean); the supergraph library and JAX control flow are modelled, not verified",
-        "correspondence: harness/compiledcheck.py; probe nodes harness/rt.py",
+        "Lean (every trace): the executor refines the dataflow evaluation — C01_compiled_executor_refines_dataflow (hypotheses: replay succeeds = C08, no vertex twice, no dependency in the cell's own generation, one cell "
+        "per node and generation, steps in sequence order) and C01_accepted_instance_executor_refines for the decision procedures execHypOk / sizedOk the driver evaluates on every exported instance; "
+        "trainable-delay windows (apply_delay inside the step) are not part of the executor model (C10, C11)",
+        "correspondence: harness/compiledcheck.py; probe nodes harness/rt.py; executor model vs compiled run in harness/props/c01.py",
     ],
     assumptions=["negative window sequence numbers may differ (any negative value means default output)", "async episode e is started with graph_state.eps = e (DESIGN 6.4)"],
 )
@@ -27,10 +32,11 @@ def run(ctx):
     res = Result()
     n = ctx.n(6, 10 if ctx.search else 40)
     seeds = [ctx.rng.randrange(1 << 30) for _ in range(n)]
-    tasks = [dict(fn="tasks_rt:compiled_case", args=dict(seed=s), timeout=900) for s in seeds]
+    tasks = [dict(fn="tasks_rt:compiled_case", args=dict(seed=s, exec_export=(k % 2 == 0)), timeout=900) for k, s in enumerate(seeds)]
     # families the random generator rarely produces: a node much faster than the supervisor (>= 11 slots of one kind per partition), peers sharing a generation
     tasks += [dict(fn="tasks_rt:compiled_case", args=dict(seed=ctx.rng.randrange(1 << 30), spec_kind=k), timeout=900) for k in ["high_ratio", "equal_rates", "trainable"] * ctx.n(1, 3)]
     good = ac.pool_cases(tasks, res, timeout=900)
+    xcmds, xmeta = [], []
     for t, r in good:
         if r.get("skipped"):
             res.count("skipped:" + r["skipped"])
@@ -51,7 +57,40 @@ def run(ctx):
                     res.fail("replay_mismatch", f"seed={t['args']['seed']} {entry['mode']} prune={entry['prune']} episode {e}: {d}", dict(task=t, spec=spec, mode=entry["mode"], prune=entry["prune"], episode=e, diffs=diffs[:10]))
                 if {"blocking", "skip", "window>1", "mixed_rates"} <= feats:
                     res.nontriv(dict(seed=t["args"]["seed"], mode=entry["mode"], prune=entry["prune"], e=e))
+        # the abstract executor of the Lean model on the same instances, with the probe step function
+        if "probe" in r:
+            for entry in r["compiled"]:
+                for e, ex in enumerate(entry.get("exec", [])):
+                    xcmds.append(dict(cmd="sched.exec", sizes=ex["sizes"], w=r["probe"]["w"], s0=r["probe"]["s0"], y0=r["probe"]["y0"], draws=r["probe"]["draws"], **ex["inst"]))
+                    xmeta.append((t, r, entry, e))
         res.traces += 1
         if len(res.samples) < 2:
             res.samples.append(dict(seed=t["args"]["seed"], spec=spec, lengths=r["lengths"], compile_s=[(c["mode"], c["prune"], c["compile_s"]) for c in r["compiled"]]))
+    xouts = ac.run_driver_parallel(xcmds) if (ctx.driver is not None and xcmds) else []
+    for (t, r, entry, e), o in zip(xmeta, xouts):
+        res.evaluations += 1
+        tag = f"seed={t['args']['seed']} {entry['mode']} prune={entry['prune']} episode {e}"
+        if "error" in o:
+            res.corr_diff("compiled-exec", f"{tag}: driver error {o['error']}", dict(task=t))
+            continue
+        res.count("exec_model_instances")
+        res.count("exec_refinement_theorem_applies" if (o["exec_hyp"] and o["sized"]) else "exec_refinement_hypotheses_unmet")
+        names = r["probe"]["names"]
+        crec = entry["episodes"][e]
+        bad = None
+        nrows = 0
+        for kind, seq, st, y in o["rows"]:
+            rec = crec[names[kind]]
+            if seq >= rec["n"] or rec["seq"][seq] != seq:
+                continue  # beyond the executed horizon of the real rollout
+            nrows += 1
+            if y is None or rec["output"][seq] != y:
+                bad = f"node {names[kind]} step {seq}: the compiled runtime produced output {rec['output'][seq]}, the abstract executor of the model {y}"
+                break
+            if seq + 1 < rec["n"] and rec["seq"][seq + 1] == seq + 1 and rec["state"][seq + 1] != st:
+                bad = f"node {names[kind]} step {seq}: the compiled runtime left state {rec['state'][seq + 1]}, the abstract executor of the model {st}"
+                break
+        res.count("exec_model_rows_compared", nrows)
+        if bad:
+            res.corr_diff("compiled-exec", f"{tag}: {bad}", dict(task=t, spec=r["spec"], mode=entry["mode"], prune=entry["prune"], episode=e))
     return res
